@@ -450,6 +450,7 @@ class Emitter:
         rel, cont, name = parts
         i += 1
         tags, attrs, renames, loops, hints, subs, contract = [], [], [], {}, [], [], []
+        sigsubs = []
         mode = None
         cur = contract
         while i < len(lines):
@@ -462,6 +463,9 @@ class Emitter:
             elif s.startswith('//@rename '):
                 a, b = s.split()[1:3]
                 renames.append((a, b))
+            elif s.startswith('//@sigsub '):
+                a, b = s[len('//@sigsub '):].split(' => ', 1)
+                sigsubs.append((a.strip(), b))
             elif s.startswith('//@sub '):
                 a, b = s[len('//@sub '):].split(' => ', 1)
                 subs.append((a.strip(), b))
@@ -493,6 +497,11 @@ class Emitter:
         has_body = src[he] == '{'
         body = src[he:it['end']] if has_body else None
         sig = widen_vis(sig)
+        for a_, rep in sigsubs:
+            sig, k = re.subn(a_, rep, sig)
+            if k == 0:
+                raise Lost('signature substitution /%s/ lost in %s' % (a_, hdr))
+            rules.append('SIGSUB:' + a_)
         sig2, named = name_return(sig)
         if named:
             rules.append('E3')
